@@ -829,6 +829,7 @@ func Run(r *mc.Run) {
 	})
 
 	typesScenario(r)
+	longScenario(r)
 
 	// the library's own typed documents as struct values
 	c10.AddRemarshalScenario(r, r.Pick(1, 2))
@@ -1004,6 +1005,13 @@ func Replay(scenario string, raw json.RawMessage) []*mc.Violation {
 	}
 	if scenario == c10.RemarshalScenario {
 		return c10.ReplayRemarshal(raw)
+	}
+	if scenario == "long-lists" {
+		var in LongIn
+		if mc.UnmarshalInput(raw, &in) == nil {
+			return checkLong(scenario, in)
+		}
+		return nil
 	}
 	if scenario == "types-sharing-a-name" {
 		var in TypesIn
